@@ -96,7 +96,7 @@ def main():
     ev = evidence()
     p = V / "DESIGN.md"
     s = p.read_text()
-    gens = {"A0": gen_a0(ev), "APPENDIX": gen_appendix(ev), "SEEDS-B": gen_seed_table("b"), "SEEDS-C": gen_seed_table("c"), "SEEDS-D": gen_seed_table("d"), "SEEDS-E": gen_seed_table("e"), "SEEDS-F": gen_seed_table("f")}
+    gens = {"A0": gen_a0(ev), "APPENDIX": gen_appendix(ev), "SEEDS-B": gen_seed_table("b"), "SEEDS-C": gen_seed_table("c"), "SEEDS-D": gen_seed_table("d"), "SEEDS-E": gen_seed_table("e"), "SEEDS-F": gen_seed_table("f"), "SEEDS-G": gen_seed_table("g")}
     for name, text in gens.items():
         pat = re.compile(rf"(<!-- GEN:{name} -->\n).*?(\n<!-- /GEN:{name} -->)", re.S)
         if pat.search(s):
